@@ -494,6 +494,55 @@ func (se *streamEnv) segsOf(v ssa.Value, at ssa.Instruction, depth int) []segmen
 	if v == se.header {
 		return []segment{{Src: "header", Complete: true}}
 	}
+	// a buffer grown by appends from the header buffer: header bytes appended piecewise stay "header",
+	// an appended payload is a segment of its own; the value written must be the end of the chain
+	if bufferRoot(v) == se.header && v != se.header {
+		if app, isApp := v.(*ssa.Call); isApp {
+			var chain func(x ssa.Value, d int) []segment
+			chain = func(x ssa.Value, d int) []segment {
+				x = strip(x)
+				if x == se.header {
+					return []segment{{Src: "header", Complete: true}}
+				}
+				c2, ok := x.(*ssa.Call)
+				if !ok || d > 8 {
+					return nil
+				}
+				b, ok := c2.Call.Value.(*ssa.Builtin)
+				if !ok || b.Name() != "append" || len(c2.Call.Args) != 2 {
+					return nil
+				}
+				pre := chain(c2.Call.Args[0], d+1)
+				if pre == nil {
+					return nil
+				}
+				if se.isData(strip(c2.Call.Args[1])) {
+					return append(pre, segment{Src: "data", Complete: true})
+				}
+				if pre[len(pre)-1].Src != "header" {
+					return append(pre, segment{Src: "bytes appended after the payload"})
+				}
+				return pre // more header bytes
+			}
+			if segs := chain(app, 0); segs != nil {
+				last := true
+				if refs := v.Referrers(); refs != nil {
+					for _, r := range *refs {
+						if c2, ok := r.(*ssa.Call); ok {
+							if b, ok := c2.Call.Value.(*ssa.Builtin); ok && b.Name() == "append" && len(c2.Call.Args) == 2 && c2.Call.Args[0] == v {
+								last = false
+							}
+						}
+					}
+				}
+				if !last {
+					segs[0].Complete = false
+					segs[0].Why = "a later append extends the buffer after it was written"
+				}
+				return segs
+			}
+		}
+	}
 	if c, ok := v.(*ssa.Call); ok {
 		if b, ok := c.Call.Value.(*ssa.Builtin); ok && b.Name() == "append" && len(c.Call.Args) == 2 {
 			return append(se.segsOf(c.Call.Args[0], at, depth+1), se.segsOf(c.Call.Args[1], at, depth+1)...)
